@@ -16,7 +16,7 @@ import (
 )
 
 type c08Req struct {
-	Part    string `json:"part"` // binary | unary | exp | lists | algebra | zero
+	Part    string `json:"part"` // binary | unary | exp | batch | lists | algebra | zero
 	Mode    string `json:"mode"`
 	NRandom int    `json:"nrandom"`
 	Shard   int    `json:"shard"`
@@ -168,6 +168,52 @@ func c08(raw json.RawMessage, resp *drv.Response) error {
 			if err != nil || !got[0].Eq(want) {
 				bad("exp/wrong", fmt.Sprintf("%s^%d = %v, field: %s (%s)", estr(a), e, got, estr(want), firstLine(err)), nil)
 			}
+		}
+	case "batch":
+		// several calls on one chip in one circuit with related operands (same exponent, bases sharing a coordinate; the same operand
+		// twice): a result is a function of its operands, not of what the chip computed before
+		for rep := 0; rep < 6+req.NRandom; rep++ {
+			c0, c1 := drv.RandBelow(rng, bigP), drv.RandBelow(rng, bigP)
+			bases := []gf.E{{c0, drv.RandBelow(rng, bigP)}, {c0, drv.RandBelow(rng, bigP)}, {drv.RandBelow(rng, bigP), c1}, {big.NewInt(0), drv.RandBelow(rng, bigP)}, {big.NewInt(0), c1}, {c0, c1}}
+			e := []uint64{3, 5, 6, 255, 256, 65537, uint64(3 + rng.Intn(1000))}[rep%7]
+			got, err := runQE(req.Mode, bases, nil, func(chip *gl.Chip, api frontend.API, v []gl.QuadraticExtensionVariable, x []frontend.Variable) []gl.QuadraticExtensionVariable {
+				var out []gl.QuadraticExtensionVariable
+				for _, b := range v {
+					out = append(out, chip.ExpExtension(b, e))
+				}
+				for i := range v {
+					out = append(out, chip.MulExtension(v[i], v[(i+1)%len(v)]))
+				}
+				for _, b := range v {
+					inv, _ := chip.InverseExtension(b)
+					out = append(out, inv)
+				}
+				out = append(out, chip.ExpExtension(v[0], e)) // the first base again, last
+				return out
+			})
+			resp.Count(fmt.Sprintf("batch/%d/%s/%s", e, c0, c1), false)
+			if err != nil {
+				bad("batch/rejected", firstLine(err), nil)
+				continue
+			}
+			k := 0
+			check := func(name string, want gf.E) {
+				if k < len(got) && !got[k].Eq(want) {
+					bad("batch/wrong op="+name, fmt.Sprintf("call %d of a batch on one chip (%s, exponent %d): %s, field: %s", k, name, e, estr(got[k]), estr(want)), nil)
+				}
+				k++
+			}
+			for _, b := range bases {
+				check("exp", gf.EExp(b, new(big.Int).SetUint64(e)))
+			}
+			for i := range bases {
+				check("mul", gf.EMul(bases[i], bases[(i+1)%len(bases)]))
+			}
+			for _, b := range bases {
+				bi, _ := gf.EInv(b)
+				check("inverse", bi)
+			}
+			check("exp", gf.EExp(bases[0], new(big.Int).SetUint64(e)))
 		}
 	case "lists":
 		lens := []int{0, 1, 2, 3, 7, 16, 100, 300}
